@@ -28,6 +28,8 @@ func SetupC06Parked() any {
 	for i, rt := range set.Routes {
 		mustHandle(p, methodOf(i), rt.Pattern)
 	}
+	// a method beyond the pre-instantiated verbs (its root is created and removed by writers)
+	mustHandle(p, "PATCH", "/patched/{x}")
 	return &c06State{p: p}
 }
 
@@ -188,5 +190,61 @@ func HarnessC06Parked(st any) {
 		if _, err := r.Delete("GET", "/committed/meanwhile"); err != nil {
 			panic(err)
 		}
+	case 5: // writers wait only for other writers: a write completes while a reader is parked in the middle of its read
+		writeNow := func(where string) {
+			blocked := sym.WouldBlock(func() {
+				if _, err := r.Handle("GET", "/written/meanwhile", noopHandler); err != nil {
+					panic(err)
+				}
+				if _, err := r.Delete("GET", "/written/meanwhile"); err != nil {
+					panic(err)
+				}
+			})
+			sym.Assert(!blocked, "a writer does not wait for a reader ("+where+")")
+		}
+		it := r.Iter()
+		for range it.Methods() {
+			writeNow("inside Iter.Methods")
+			break
+		}
+		for range it.All() {
+			writeNow("inside Iter.All")
+			break
+		}
+		for range it.Routes(it.Methods(), pattern) {
+			writeNow("inside Iter.Routes")
+			break
+		}
+		for range it.Prefix(it.Methods(), "/") {
+			writeNow("inside Iter.Prefix")
+			break
+		}
+		for range it.Reverse(it.Methods(), host, path) {
+			writeNow("inside Iter.Reverse")
+			break
+		}
+		_ = r.View(func(txn *fox.Txn) error {
+			writeNow("inside View")
+			for range txn.Iter().All() {
+				writeNow("inside View, iterating")
+				break
+			}
+			return nil
+		})
+		ro := r.Txn(false)
+		snap := ro.Snapshot()
+		writeNow("with an open read-only transaction and its snapshot")
+		_ = snap.Len()
+		ro.Abort()
+		req := &http.Request{Method: "GET", Host: host, URL: &url.URL{Path: path}}
+		_, cc, _ := r.Lookup(nil, req)
+		writeNow("with an open Lookup context")
+		if cc != nil {
+			cc.Close()
+		}
+		s.p.inHandler = func() { writeNow("inside a request handler") }
+		s.p.serve(req)
+		s.p.inHandler = nil
+		sym.Cover("writes completed while readers were parked")
 	}
 }
